@@ -114,6 +114,8 @@ type Gen struct {
 	entryByteMem string
 	heapKind     map[string]Kind
 	sliceKeep    map[ssa.Instruction]bool
+	keySt        *State
+	curLoop      *loopInfo
 	ownLocsDone  bool
 	ownLocsCache []modLoc
 	inFrameEval  bool
@@ -126,6 +128,7 @@ type Hooks struct {
 	onAppend func(g *Gen, st *State, s *Val, n string, pos token.Pos, text string)
 	onCopy   func(g *Gen, st *State, d *Val, n string, pos token.Pos, text string)
 	onReturn func(g *Gen, st *State, env *Env, r *ssa.Return)
+	onExtWrite func(g *Gen, st *State, s *Val, pos token.Pos, text string)
 	autoInvs map[int][]Clause
 }
 
@@ -790,8 +793,15 @@ func (g *Gen) eqVal(a, b *Val) string {
 	return ""
 }
 
+// strKey: the map-key / comparison identity of a string or byte slice: a function of the CONTENTS
+// of its backing array (in the state being evaluated), offset and length.
 func (g *Gen) strKey(v *Val) string {
-	return "(strkey " + v.Arr + " " + v.Off + " " + v.Len + ")"
+	st := g.keySt
+	if st == nil {
+		st = g.entry
+	}
+	m := g.memSym(st, types.Typ[types.Uint8], "", KInt)
+	return "(strkey (select " + m + " " + v.Arr + ") " + v.Off + " " + v.Len + ")"
 }
 
 func (g *Gen) strEq(a, b *Val) string {
